@@ -19,9 +19,16 @@ func Selector(t *sim.Tape, ssb builder.SelectorSpecBuilder, depth int, inRec boo
 // simulated world runs at a time per process.)
 var FieldHints []string
 
+// InterpretAs, when set, names an ADL reifier the walked link system knows: a tenth of the
+// clauses are wrapped in an interpret-as clause naming it. (Set by the scenario before drawing.)
+var InterpretAs string
+
 func genSelector(t *sim.Tape, ssb builder.SelectorSpecBuilder, depth int, inRec bool, noSubset bool) builder.SelectorSpec {
 	if depth > 3 {
 		return ssb.Matcher()
+	}
+	if InterpretAs != "" && depth > 0 && t.Pct(10, "sel.interpretas") {
+		return ssb.ExploreInterpretAs(InterpretAs, genSelector(t, ssb, depth+1, inRec, noSubset))
 	}
 	opts := []int{0, 0, 1, 2, 2, 3, 4, 5, 6}
 	if inRec {
